@@ -247,6 +247,10 @@ def valid_schema(rng, sysr):
                 out.append(b"\t\tATTR: " + rng.choice([b"Tags next", b"Registries r1", b"Blocked"]))
             for _ in range(rng.randrange(0, 4)):
                 out.append(b"\t\t" + rng.choice(types) + rng.choice(names) + b"@" + rng.choice(reqs))
+    if rng.random() < 0.12:
+        # one odd row among well-formed ones: a type prefix with nothing behind it, a bare separator, half a requirement
+        out.insert(rng.randrange(1, len(out) + 1), rng.choice([b"\t\tdev|", b"\t\tScope test|", b"\t\t|", b"\t\t@", b"\t\tdev|@", b"\t\ta@",
+                   b"\t\t@s/x", b"\tTags latest|", b"\t|", b"\t\tdev|opt|a@1", b"\t\tATTR:", b"\t\tATTR: ", b"\t\t|@|", b"\t", b"\t\t"]))
     text = b"\n".join(out) + b"\n"
     root = names[0]
     rv = None
